@@ -1,10 +1,12 @@
 import MindsVerif.Model.Err
 import MindsVerif.Gen.Tables_mindsdb
 import MindsVerif.Gen.ErrLex
+import MindsVerif.Model.CanTake
 /-! Line protocol driver for the M10 model (mindsdb dialect).
 strings are sent as decimal code points joined by ',' ("-" = empty string)
 input  `P <bad idx|eof> <expected ids , joined|-> <raising lists: ids , joined, lists ; joined|-> {<type> <lineno> <index> <value>}*`
                                                                                          → `ErrorHandling.process`
+       `K <tok id>*`                                                                      → ids of the `expected_tokens` stored by `MindsDBParser.error` (kept by `_can_take`)
        `L <index> <text>`                                                                → `MindsDBLexer.error` (lines after the header)
 output the message, encoded the same way -/
 open MindsVerif MindsVerif.Err MindsVerif.Gen
@@ -35,7 +37,9 @@ def handle (line : String) : String :=
       let bad := if b == "eof" then none else b.toNat?
       let exp := if e == "-" then [] else (e.splitOn ",").filterMap String.toNat?
       let rej : List (List Nat) := if rj == "-" then [] else (rj.splitOn ";").map (fun l => (l.splitOn ",").filterMap String.toNat?)
-      encStr (process (queryIsValid Tables_mindsdb.tables (fun l => rej.any (· == l))) nm attr toks bad exp)
+      encStr (process ErrLex.splitValues (queryIsValid Tables_mindsdb.tables (fun l => rej.any (· == l))) nm attr toks bad exp)
+  | "K" :: rest =>
+    ",".intercalate ((LR.keptExpected Tables_mindsdb.tables Tables_mindsdb.nTerms (rest.filterMap String.toNat?)).map toString)
   | ["L", i, t] =>
     match i.toNat? with
     | none => "bad-line"
